@@ -1,26 +1,37 @@
 """C19 — --dry-run writes nothing and prints exactly what a real run would write"""
-import os
+import os, re
 import core, gen, gen_units as G, canon, e2e
 from core import hx, unhx
 
-LEAN_MODULE = 'QM.Props.C19'
-THEOREMS = ['Parse.C19_serialisers']
+LEAN_MODULE = 'QM.Props.C19Run'
+THEOREMS = ['Parse.C19_serialisers', 'Cv.C19_dry_run_touches_nothing', 'Cv.C19_dry_run_ignores_the_world', 'Cv.C19_prints_what_a_run_writes',
+            'Cv.C19_same_errors', 'Cv.C19_same_exit', 'Cv.C19_errors_modulo_io', 'Cv.C19_paired', 'Cv.run_services']
 ASSUMPTIONS = [
     'Parse.printUnit / Parse.writeChunks model to_string / write_to (two separately written serialisers); tied to the code by the unit-script correspondence (to_string and write_to of the same unit after random mutation scripts)',
-    'the process-level claims (nothing created, modified or deleted; same load/conversion errors; same exit status) concern std::fs and the process; they are checked on real runs of the binary on generated trees with a before/after snapshot (paths, types, link targets, content hashes), not proved',
+    'Cv.process (QM/Run.lean) models the whole of process(): loading, drop-ins, the early return, creation of the output directory, the conversion loop and per unit the --dry-run branch or generate_service_file + enable_service_file, as a list of effects and a list of errors; the answers of the file system are a parameter (World). It is tied to the code by running the binary with --dry-run and normally on the same generated trees (with a directory or /dev/full in the place of a service file, or a file in the place of the output directory) and comparing exit status, errors with their paths, printed texts, written files and the links that exist afterwards',
+    'known finding KF-C19-1: an Alias= that names the service file of another unit of the same run (two units claiming one name in the output directory) — that unit\'s text is written through the link, or its file is replaced by the link; such runs are excluded from the file-by-file comparison and the model reports them as `clash`',
+    'std::fs, the standard streams and the process exit are runtime: that a print is only a print and that the file system does what the model says is observed on real runs (before/after snapshots), not proved',
 ]
-LEVEL_TEXT = ('Proof (text part) + end-to-end check (effects): Lean theorem C19_serialisers shows the model of write_to emits exactly the text of '
-              'to_string for every unit (induction over sections). That --dry-run performs no file-system mutation and reports the same errors and '
-              'exit status is runtime behaviour of std::fs/process: partial — it is checked on pairs of real runs (dry-run, normal) of the binary '
-              'over generated trees incl. invalid units and [Install] sections, with full snapshots.')
+LEVEL_TEXT = ('Proof over the model of the whole run + correspondence with real runs in both modes: C19_serialisers (write_to emits exactly the text of '
+              'to_string, induction over sections); over Cv.process, for every tree, output path and answer of the file system: with --dry-run every '
+              'effect is a print (C19_dry_run_touches_nothing) and the file system is not even asked (C19_dry_run_ignores_the_world); unit for unit and in '
+              'the same order the dry run prints under the same path exactly the text a normal run writes after the generated-by line '
+              '(C19_prints_what_a_run_writes), with the same errors and exit status (C19_same_errors, C19_same_exit); when writes fail the normal run adds '
+              'I/O errors only (C19_errors_modulo_io). Partial with respect to the runtime: std::fs and the streams are observed on paired real runs with '
+              'before/after snapshots.')
 LEVEL_NOTE = 'Trusted: Lean kernel; unit-script correspondence for the serialisers; the e2e runs for everything the model cannot exhibit (file-system effects, exit status).'
-TECHNIQUE = 'Lean 4 proof (the two serialisers agree) + correspondence + paired real runs with file-system snapshots'
+TECHNIQUE = 'Lean 4 proof over a model of the whole run (dry run = prints only; prints = what a run writes; same errors and status) + correspondence of that model with real dry and normal runs + paired real runs with file-system snapshots'
 
 
 def corr_ops(ctx):
     import props.c15 as c15
     rnd = ctx.rnd
     return [c15.mutation_script(rnd) for _ in range(6000 if ctx.thorough else 1200)]
+
+
+def correspond(ctx):
+    import runcorr
+    runcorr.correspond_process(ctx, 400 if ctx.thorough else 100)
 
 
 def nontrivial(op, out):
@@ -120,7 +131,21 @@ def oracle(ctx):
             fails.append(f'exit status differs: dry-run {d["exit"]}, normal {n["exit"]}')
         printed = {os.path.basename(k): v for k, v in d['printed'].items()}
         written = {k: e2e.strip_header(v) for k, v in n['services'].items()}
-        if len(printed) == len(d['printed']):  # no two units with the same service file name (KF-C10-1 is about that case)
+        # known finding KF-C19-1 (match = alias_names_another_units_service_file): an Alias= of one unit that is the service file name of
+        # ANOTHER unit of the run — a name clash between two units, like KF-C10-1: such runs are not compared file by file
+        taken = set()
+        for fn, t in files.items():
+            for l in t.split('\n'):
+                if l.startswith('Alias='):
+                    for w in l[6:].split():
+                        for k, v in printed.items():
+                            if os.path.normpath(w) == k and ('SourcePath=' + os.sep) in v and not re.search(r'^SourcePath=.*/' + re.escape(os.path.basename(fn)) + '$', v, re.M):
+                                taken.add(k)
+        if taken:
+            # the link replaces that unit's file, or — when the alias is made first — that unit's text is written through the link
+            # into the aliasing unit's file: no file of the run is compared
+            printed, written = {}, {}
+        if len(printed) == len(d['printed']) or taken:  # no two units with the same service file name (KF-C10-1 is about that case)
             if set(printed) != set(written):
                 fails.append(f'services printed {sorted(printed)} vs written {sorted(written)}')
             for k in set(printed) & set(written):
@@ -132,6 +157,15 @@ def oracle(ctx):
         for f in fails:
             res.oracle_failures.append(dict(op='e2e', tree=files, impl_output=dict(dry_exit=d['exit'], run_exit=n['exit'], dry_stderr=d['stderr'][-800:], run_stderr=n['stderr'][-800:]),
                                             oracle_expectation=f))
+    # known finding KF-C19-1: re-confirmed on its example on every run
+    import json as _json2
+    for k in ctx.known:
+        ex = _json2.load(open(os.path.join(core.VERIF, 'known_findings.d', k['example'])))
+        dd, nn = e2e.run_pair({'src/' + n: t for n, t in ex['files'].items()})
+        pr = {os.path.basename(p): canon_text(v) for p, v in dd['printed'].items()}
+        wr = {p: canon_text(e2e.strip_header(v)) for p, v in nn['services'].items()}
+        if pr != wr:
+            res.known_hits[k['id']] = k['what']
     res.samples.append(dict(kind='e2e-tree', files=trees[0]))
     ctx.log(f'oracle: {res.oracle_evals} evaluations, {len(res.oracle_failures)} failures')
 
